@@ -133,7 +133,11 @@ def strategy(tier):
             t['guard'], t['action'] = opt(code), opt(code)
             t['pre'], t['post'], t['inv'] = conds(), conds(), conds()
             if draw(st.floats(0, 1)) < 0.2:
-                t['priority'] = draw(st.integers(-10**6, 10**6))
+                t['priority'] = draw(st.one_of(
+                    st.integers(-10**6, 10**6),
+                    # integers a double cannot represent
+                    st.sampled_from([2 ** 53 + 1, -(2 ** 53 + 1), 10 ** 30, 2 ** 63 - 1,
+                                     2 ** 64 + 3])))
         spec['name'] = draw(ok_text)
         spec['description'] = opt(ok_text)
         spec['preamble'] = opt(ok_text)
